@@ -149,6 +149,17 @@ Theorem constructor_leaves_caller_dict :
 Proof. exact ctor_caller_dict_ok. Qed.
 Print Assumptions constructor_leaves_caller_dict.
 
+(* objects built from ONE style dict are independent: reading the style of one of them (which consumes its pending
+   constructor arguments - the caller's dict itself when no style_ keyword was given) leaves that dict unchanged,
+   and a second object built from it gets the style of an object built from its own copy (forms of the BaseGeo.style
+   getter and of BaseGeo.__init__ from GenStyle) *)
+Theorem objects_from_one_style_dict_independent :
+  forall (s : schema) (d : dict),
+    shared_dict_after_read pending_style_consumed_by_rebinding d = d /\
+    second_object_style pending_style_consumed_by_rebinding s d = obj_new cenv s d [].
+Proof. exact shared_ctor_dict_ok. Qed.
+Print Assumptions objects_from_one_style_dict_independent.
+
 (* magic_to_dict (first level, form from GenStyle) leaves its argument as it was, for every argument *)
 Theorem magic_to_dict_leaves_argument :
   forall arg : dict, magic_caller_arg_after magic_merge_fresh arg = arg.
